@@ -347,7 +347,10 @@ application_call:
 			break;
 		}
 
-		++_next_receive_seq;
+		// only a message that was in sequence (or a sequence reset, which has set the new number) moves the expected number on:
+		// not one that was ahead of sequence and not a retransmission of an earlier number
+		if (seqnum == _next_receive_seq || msg->get_msgtype() == Common_MsgType_SEQUENCE_RESET)
+			++_next_receive_seq;
 		if (retry_plog)
 			plog(from, Logger::Info, 1);
 
@@ -392,7 +395,8 @@ application_call:
 		{
 			slout_error << e.what() << " - inbound message rejected";
 			handle_outbound_reject(seqnum, msg, e.what());
-			++_next_receive_seq;
+			if (seqnum == _next_receive_seq)
+				++_next_receive_seq;
 			if (_plogger && _plogger->has_flag(Logger::inbound))
 				plog(from, Logger::Info, 1);
 			delete msg;
